@@ -140,6 +140,14 @@ type Harness struct {
 	// post-conditions over engine state such as fmt call logs).
 	OnPathEnd func(e *Exec)
 	Verbose   bool
+	// SampleModels: number of completed paths for which a model of the path
+	// condition is extracted (used for native cross-validation).
+	SampleModels int
+}
+
+type PathSample struct {
+	Reaches []string
+	Inputs  []InputVal
 }
 
 type Report struct {
@@ -172,6 +180,7 @@ type Report struct {
 	Inputs       int
 	SampleInputs []string
 	PathsTruncated bool
+	Samples      []PathSample
 }
 
 func (r *Report) OK() bool {
@@ -279,6 +288,19 @@ func (p *Program) Explore(h *Harness) *Report {
 		switch outcome.kind {
 		case "completed":
 			rep.Completed++
+			if len(rep.Samples) < h.SampleModels && len(e.inputs) > 0 {
+				if r, vals := s.CheckModel(e.inputs); r == Sat {
+					ps := PathSample{}
+					for l := range e.reaches {
+						ps.Reaches = append(ps.Reaches, l)
+					}
+					sort.Strings(ps.Reaches)
+					for i, in := range e.inputs {
+						ps.Inputs = append(ps.Inputs, InputVal{Name: in.Name, Tag: e.inputTags[i], Sort: in.Sort, Val: vals[i]})
+					}
+					rep.Samples = append(rep.Samples, ps)
+				}
+			}
 		case "aborted":
 			rep.Aborted++
 		case "stopped":
